@@ -13,7 +13,8 @@ theorem mem_rawProducts (c : CleaveCfg) (prot : Pep) (nf dropOpen : Bool) (p : P
       ∃ st k, st < (bounds (cleaveSites c.rule c.exc prot) prot.length).length - 1 ∧
         k < min (c.misc + 1) ((bounds (cleaveSites c.rule c.exc prot) prot.length).length - (st + 1)) ∧
         ¬ (dropOpen = true ∧
-            (bounds (cleaveSites c.rule c.exc prot) prot.length).getD (st + 1 + k) 0 = prot.length) ∧
+            (bounds (cleaveSites c.rule c.exc prot) prot.length).getD (st + 1 + k) 0 = prot.length ∧
+            prot.length ∉ cleaveSites c.rule c.exc prot) ∧
         (p = slice prot ((bounds (cleaveSites c.rule c.exc prot) prot.length).getD st 0)
               ((bounds (cleaveSites c.rule c.exc prot) prot.length).getD (st + 1 + k) 0) ∨
          (st = 0 ∧ nf = false ∧
@@ -29,10 +30,10 @@ theorem mem_rawProducts (c : CleaveCfg) (prot : Pep) (nf dropOpen : Bool) (p : P
     · cases hp
     · rename_i hc
       refine ⟨?_, ?_⟩
-      · intro ⟨h1, h2⟩
+      · intro ⟨h1, h2, h3⟩
         apply hc
         rw [h1, h2]
-        simp
+        simp [h3]
       · simp only [List.mem_append, List.mem_singleton] at hp
         rcases hp with hp | hp
         · right
@@ -46,10 +47,11 @@ theorem mem_rawProducts (c : CleaveCfg) (prot : Pep) (nf dropOpen : Bool) (p : P
   · rintro ⟨st, k, hst, hk, hd, hp⟩
     refine ⟨st, hst, k, hk, ?_⟩
     have hc : ¬ ((dropOpen && (bounds (cleaveSites c.rule c.exc prot) prot.length).getD (st + 1 + k) 0
-        == prot.length) = true) := by
+        == prot.length && !(cleaveSites c.rule c.exc prot).contains prot.length) = true) := by
       intro h
-      simp only [Bool.and_eq_true, beq_iff_eq] at h
-      exact hd h
+      simp only [Bool.and_eq_true, beq_iff_eq, Bool.not_eq_true', List.contains_eq_mem,
+        decide_eq_false_iff_not] at h
+      exact hd ⟨h.1.1, h.1.2, h.2⟩
     rw [if_neg hc]
     simp only [List.mem_append, List.mem_singleton]
     rcases hp with hp | ⟨h0, hnf, hM, hp⟩
